@@ -19,7 +19,7 @@ Proof.
 Qed.
 
 (* ---- the label machine on a whole program ------------------------------------------------------------------- *)
-Definition pr0 (p : prog) : promise := mkPr (lexdecls p) (vardecls p) false.
+Definition pr0 (p : prog) : promise := mkPr (lexdecls p) (vardecls p) false [].
 Definition e0 (p : prog) : env := [(O, false, vardecls p ++ lexdecls p)].
 
 (* the fragment without default values is part of the fragment with them *)
@@ -371,3 +371,24 @@ Proof. vm_compute. repeat split; reflexivity. Qed.
 Example example_x_partition :
   option_map (canon Nat.eqb) (occurrence_vars example_prog_x) = Some (canon target_eqb (spec_resolve example_prog_x)).
 Proof. vm_compute. reflexivity. Qed.
+
+(* uses frozen by a mark and declarations made after it: a loop head that mentions a name the loop body declares, a
+   catch parameter pattern with default values (a forward reference inside the pattern, a name the catch block
+   declares), a default value that mentions a name the function body declares                                   *)
+(*   var c; for (let b of c) { c; let c }  try {} catch ([d = e, e = c]) { let c; d }  (function(g = c){ c; var c })   *)
+Definition example_prog_y : prog :=
+  Decl DVar 3
+  (For (Decl DLex 2 (Ref 3 Done)) (Ref 3 (Decl DLex 3 Done))
+  (Block Done
+  (Catch (Decl DCatch 4 (Ref 5 (Decl DCatch 5 (Ref 3 Done)))) (Decl DLex 3 (Ref 4 Done))
+  (Func None (Decl DParam 6 (Ref 3 Done)) (Ref 3 (Decl DVar 3 Done)) Done)))).
+
+Example example_y_hyps :
+  core_x example_prog_y = true /\ core_d example_prog_y = false /\ program_ok example_prog_y = true
+  /\ Z.of_nat (occurrences example_prog_y) < 65536.
+Proof. vm_compute. repeat split; reflexivity. Qed.
+
+Example example_y_partition :
+  option_map (canon Nat.eqb) (occurrence_vars example_prog_y) = Some (canon target_eqb (spec_resolve example_prog_y))
+  /\ canon target_eqb (spec_resolve example_prog_y) = [0; 1; 0; 2; 2; 3; 4; 4; 0; 5; 3; 6; 0; 7; 7]%nat.
+Proof. vm_compute. split; reflexivity. Qed.
